@@ -819,6 +819,11 @@ func replayNative(ov *overlaySet, h HarnessCfg, cexPath string, v *Violation, re
 			if strings.Contains(o, "VP-PANIC") {
 				return true, o
 			}
+			// the panic was raised in a goroutine the code under test started (a connection's command loop): it
+			// cannot be recovered by the harness and takes the test process down - which is the member crashing
+			if strings.Contains(o, "\npanic: ") && strings.Contains(o, "[running]:") && !strings.Contains(o, "test timed out") {
+				return true, o
+			}
 		case "nonterm", "deadlock", "unwind":
 			if timedOut || strings.Contains(o, "test timed out") || strings.Contains(o, "all goroutines are asleep") || strings.Contains(o, "out of memory") || strings.Contains(o, "cannot allocate memory") {
 				return true, o
